@@ -6,6 +6,7 @@ package aggregate
 
 import (
 	"context"
+	"math"
 	"sync"
 	"time"
 
@@ -728,4 +729,98 @@ func HarnessC12Filter() {
 		vndAssert(got[i] == seen[i], "filter-reports-every-filtered-set")
 	}
 	vndAssert(gsum == total, "filter-total-conserved")
+}
+
+// C08.pair (exponential histogram, MaxScale 0 so that no logarithm is needed):
+// the same measurements read by a delta and a cumulative aggregator; every
+// point's zero / positive / negative bucket counts equal a reference bucketing
+// of the measurements it covers at the point's own scale, so the cumulative
+// buckets equal the running total of the delta buckets (re-scaled)
+var aggExpoVals = []float64{1.5, 3, 6, 12, 100, 0.3, -3, 0}
+
+// index of the scale-0 bucket (2^i, 2^(i+1)] holding |v|
+func aggExpoIndex0(v float64) int {
+	frac, exp := math.Frexp(math.Abs(v))
+	if frac == 0.5 {
+		return exp - 2
+	}
+	return exp - 1
+}
+
+func aggExpoCheck(dp metricdata.ExponentialHistogramDataPoint[float64], vals []float64, tag string) {
+	vndAssert(dp.Count == uint64(len(vals)), tag+"-count")
+	vndAssert(dp.Scale <= 0 && dp.Scale >= -10, tag+"-scale-in-range")
+	sh := uint(-dp.Scale)
+	var zero uint64
+	pos, neg := map[int]uint64{}, map[int]uint64{}
+	for _, v := range vals {
+		switch {
+		case v == 0:
+			zero++
+		case v > 0:
+			pos[aggExpoIndex0(v)>>sh]++
+		default:
+			neg[aggExpoIndex0(v)>>sh]++
+		}
+	}
+	vndAssert(dp.ZeroCount == zero, tag+"-zero-count")
+	for side, b := range []metricdata.ExponentialBucket{dp.PositiveBucket, dp.NegativeBucket} {
+		want := pos
+		if side == 1 {
+			want = neg
+		}
+		vndAssert(len(b.Counts) <= 4, tag+"-at-most-max-size-buckets")
+		var total uint64
+		for i, c := range b.Counts {
+			vndAssert(c == want[int(b.Offset)+i], tag+"-bucket-counts")
+			total += c
+		}
+		var wantTotal uint64
+		for _, c := range want {
+			wantTotal += c
+		}
+		vndAssert(total == wantTotal, tag+"-no-count-outside-the-buckets")
+	}
+}
+
+func HarnessC08PairExpo() {
+	aggClock()
+	md, cd := Builder[float64]{Temporality: metricdata.DeltaTemporality}.ExponentialBucketHistogram(4, 0, false, false)
+	mc, cc := Builder[float64]{Temporality: metricdata.CumulativeTemporality}.ExponentialBucketHistogram(4, 0, false, false)
+	ctx := context.Background()
+	var all, since []float64
+	k := vndParam("K", 5)
+	nv := vndParam("VALS", 6)
+	for step := 0; step < k; step++ {
+		if c := vndChoice(nv + 1); c < nv {
+			v := aggExpoVals[c]
+			md(ctx, v, aggSets[0])
+			mc(ctx, v, aggSets[0])
+			all, since = append(all, v), append(since, v)
+			continue
+		}
+		var dd, dc metricdata.Aggregation
+		cd(&dd)
+		cc(&dc)
+		vndReach("collect")
+		dh, _ := dd.(metricdata.ExponentialHistogram[float64])
+		ch, _ := dc.(metricdata.ExponentialHistogram[float64])
+		if len(since) == 0 {
+			vndAssert(len(dh.DataPoints) == 0, "delta-reports-nothing-without-measurements")
+		} else {
+			vndAssert(len(dh.DataPoints) == 1, "delta-point-present")
+			if len(dh.DataPoints) == 1 {
+				aggExpoCheck(dh.DataPoints[0], since, "delta")
+			}
+		}
+		if len(all) == 0 {
+			vndAssert(len(ch.DataPoints) == 0, "cumulative-reports-nothing-without-measurements")
+		} else {
+			vndAssert(len(ch.DataPoints) == 1, "cumulative-point-present")
+			if len(ch.DataPoints) == 1 {
+				aggExpoCheck(ch.DataPoints[0], all, "cumulative-equals-running-total")
+			}
+		}
+		since = nil
+	}
 }
